@@ -47,7 +47,7 @@ def main():
             res['checks'] = {}
             outs = []
             for p in props:
-                r = subprocess.run(['./check', p, '--tier', os.environ.get('TIER', 'quick')], cwd='/verif', capture_output=True, text=True,
+                r = subprocess.run(['./check', p, '--tier', os.environ.get('TIER', 'quick')], cwd=os.environ.get('VERIF_ROOT', '/verif'), capture_output=True, text=True,
                                    env=dict(os.environ, VERIF_REPO=wt, VERIF_SEED=os.environ.get('VERIF_SEED', '1')), timeout=7200)
                 res['checks'][p] = {0: 'MISSED', 1: 'CAUGHT'}.get(r.returncode, 'INFRA')
                 outs.append('\n'.join([l for l in r.stdout.splitlines() if l.startswith(('VIOLATION', '  ', 'KNOWN', '['))][-8:]) + r.stderr[-500:])
